@@ -483,6 +483,8 @@ impl ConnectionEngine {
 //@@ subst `|| { transport::Error::Io(io::Error::new( io::ErrorKind::UnexpectedEof, "Expecting remote close", )) }` => `|| -> (o: TransportError) { eof_transport_error() }` rule=R18
 //@@ subst `IncomingChannel(frame.channel)` => `IncomingChannel(frame.channel)` rule=optional
 //@@ spec
+    requires
+        old(self).connection.stop_set@ is Some,     // [C15.engine.error-visible-before-waiting-for-the-peer] this wait is entered only from close_connection, i.e. after the engine has found a violation or a failure and written its Close: the reason is published (stop reason set, so sessions and handles that wake up can read it) BEFORE the engine waits -- without bound -- for the Close of a peer that may never send it
     ensures
         discard_other ==> final(self).transport.sent@ == old(self).transport.sent@ && final(self).connection == old(self).connection
             && final(self).outgoing_session_frames == old(self).outgoing_session_frames && final(self).heartbeat == old(self).heartbeat,   // [C12.discarding.wait-ignores] while waiting for the peer's close after an error close, everything else the peer sends is dropped unseen: nothing is written, no state moves
